@@ -97,10 +97,12 @@ def gen_bases(seed, n):
 
 
 RIGHT_SPECS = {
-    "ra": {"id": "ra", "metabolites": [["b_c", "c"], ["c_c", "c"], ["d_c", "c"]],
+    # no reaction identifier in common with the bases
+    "ra": {"id": "ra", "metabolites": [["c_c", "c"], ["d_c", "c"]],
            "reactions": [["RR", -5, 5, {"c_c": -1, "d_c": 1}, "g3 and g9"], ["RS", 0, 7, {"d_c": -1}, ""]],
            "objective": {"RR": 1}, "direction": "min", "groups": [], "user_cons": {"uc_right": {"RR": 1}}},
-    "rb": {"id": "rb", "metabolites": [["b_c", "c"], ["c_c", "c"], ["d_c", "c"]],
+    # shares the reaction identifier R1 with the bases and carries a metabolite (a_e) that no reaction of it uses
+    "rb": {"id": "rb", "metabolites": [["a_e", "e"], ["b_c", "c"], ["c_c", "c"], ["d_c", "c"]],
            "reactions": [["RR", -5, 5, {"c_c": -1, "d_c": 1}, "g3 and g9"], ["R1", 0, 5, {"b_c": -1, "d_c": 1}, "g2"]],
            "objective": {"RR": 1}, "direction": "min", "groups": [], "user_cons": {"uc_right": {"RR": 1}}},
 }
@@ -1242,8 +1244,12 @@ def categorize(msg):
 def extract(model):
     from bcc import views
     s = views.snapshot(model, with_lp=False, with_meta=False)
-    s["objective"] = views.reported_objective(model)
-    s["direction"] = model.objective_direction
+    try:
+        s["objective"] = views.reported_objective(model)
+        s["direction"] = model.objective_direction
+    except Exception as e:  # noqa  (a solver left with a pending duplicate cannot even be queried)
+        s["objective"] = f"unreadable: {type(e).__name__}"
+        s["direction"] = "unreadable"
     return s
 
 
@@ -1259,7 +1265,10 @@ def ref_from_model(model, old=None):
     R.groups = {g.id: {"name": g.name, "kind": g.kind, "members": {(type(x).__name__, x.id) for x in g.members}}
                 for g in model.groups}
     e = extract(model)
-    R.obj, R.direction = dict(e["objective"]), e["direction"]
+    if isinstance(e["objective"], dict):
+        R.obj, R.direction = dict(e["objective"]), e["direction"]
+    elif old is not None:
+        R.obj, R.direction = dict(old.obj), old.direction
     if old is not None:
         R.detached = old.detached
     return R
@@ -1270,7 +1279,7 @@ def diff_content(exp, got, limit=4):
     for k in exp:
         if exp[k] == got.get(k):
             continue
-        if isinstance(exp[k], dict):
+        if isinstance(exp[k], dict) and isinstance(got.get(k), dict):
             for key in sorted(set(exp[k]) | set(got[k]), key=str):
                 if exp[k].get(key) != got[k].get(key):
                     out.append((k, f"{k}[{key}]: documented {exp[k].get(key)!r} observed {got[k].get(key)!r}"[:420]))
@@ -1305,6 +1314,9 @@ def run_history(spec, solver, history, mode, stop_on_failure=True):
                 if msgs:
                     fail(step_i, op, outcome, "other-model-" + categorize(msgs[0]), "other model involved: " + "; ".join(msgs[:4]))
         else:
+            d = diff_content(R.content(), extract(S.model))
+            if d and outcome == "raise":
+                fail(step_i, op, outcome, "changed-state", "the call raised and yet changed the model: " + "; ".join(t for _, t in d))
             msgs = views.check_xref(S.model)
             if msgs:
                 fail(step_i, op, outcome, categorize(msgs[0]), "; ".join(msgs[:4]))
@@ -1312,8 +1324,7 @@ def run_history(spec, solver, history, mode, stop_on_failure=True):
                 msgs = views.check_xref(o)
                 if msgs:
                     fail(step_i, op, outcome, "other-model-" + categorize(msgs[0]), "other model involved: " + "; ".join(msgs[:4]))
-            d = diff_content(R.content(), extract(S.model))
-            if d:
+            if d and outcome != "raise":
                 fail(step_i, op, outcome, "content-" + d[0][0], "; ".join(t for _, t in d))
         S.others = []
         return len(out["failures"]) == n0
@@ -1323,6 +1334,12 @@ def run_history(spec, solver, history, mode, stop_on_failure=True):
     for i, op in enumerate(history):
         name, args = op[0], op[1:]
         alias_before = dict(S.alias)
+        before_obj = None
+        if mode == "C01" and name in ("copy", "pickle", "deepcopy", "solver"):
+            try:                                   # pure changes of representation: the objective must come through
+                before_obj = (views.reported_objective(S.model), S.model.objective_direction)
+            except Exception:  # noqa
+                before_obj = None
         try:
             REAL_OPS[name](S, *args)
             outcome, exc = "ok", None
@@ -1357,14 +1374,34 @@ def run_history(spec, solver, history, mode, stop_on_failure=True):
                     # still report what the state looks like against the documented one
                     check(i, op, outcome)
                     return out
-        ok = check(i, op, outcome)
+        if before_obj is not None and outcome == "ok":
+            for mdl in [S.model] + [o for o in S.others]:
+                try:
+                    after_obj = (views.reported_objective(mdl), mdl.objective_direction)
+                except Exception as e:  # noqa
+                    after_obj = ("unreadable", repr(e))
+                if after_obj != before_obj:
+                    fail(i, op, outcome, "objective-not-carried-over",
+                         f"reported objective/direction {before_obj} before, {after_obj} after a pure change of representation")
+                    break
+        ok = check(i, op, outcome) and not out["failures"]
         if not ok and stop_on_failure:
             return out
     return out
 
 
+def safe_run(spec, solver, history, mode):
+    try:
+        return run_history(spec, solver, history, mode)
+    except Exception as e:  # noqa
+        import traceback
+        tb = traceback.format_exc().strip().splitlines()
+        return {"failures": [(f"{mode}:harness:{type(e).__name__}", "the harness itself failed: " + " | ".join(tb[-3:]), len(history) - 1)],
+                "executed": 0, "skipped": 0, "raised": 0, "checks": 0}
+
+
 def first_failure(spec, solver, history, mode):
-    r = run_history(spec, solver, history, mode)
+    r = safe_run(spec, solver, history, mode)
     return r["failures"][0] if r["failures"] else None
 
 
@@ -1419,7 +1456,7 @@ _ALPHA = [
     (["lb", "R0", 5], "qt"), (["lb", "R0", 2000], "q"), (["lb", "R0", "-inf"], "q"), (["lb", "R0", -5], "q"), (["lb", "R1", 5], ""),
     (["ub", "R0", -5], "q"), (["ub", "R1", -5], "qt"), (["ub", "R1", "inf"], "q"), (["ub", "R0", 0], ""), (["ub", "R0", 5], ""),
     (["r_ko", "R0"], "q"), (["r_ko", "R1"], ""),
-    (["g_ko", "g1"], "qt"), (["g_ko", "g2"], "q"), (["g_ko", "g3"], ""),
+    (["g_ko", "g1"], "qt"), (["g_ko", "g2"], "q"), (["g_ko", "g3"], "q"),
     (["rule", "R0", "g3"], "qt"), (["rule", "R0", ""], "q"), (["rule", "R2", "g1 and g9"], "q"), (["rule", "R1", "(g1 and g2) or g3"], ""),
     (["rule", "R0", "g2 or g2"], ""),
     (["obj_rxn", "R0"], "qt"), (["obj_str", "R1"], "q"), (["obj_str", "ZZ"], "q"), (["obj_dict", {"R0": 2, "R1": -1}], "qt"),
@@ -1492,10 +1529,11 @@ def random_op(rng, S, templates):
         lb, ub = rng.choice(_BOUNDS)
         return ["bounds", rng.choice(rids), lb, ub]
     if roll < 0.27 and rids:
-        return [rng.choice(["lb", "ub"]), rng.choice(rids), rng.choice([-1000, -10, -1, 0, 1, 10, 1000, "-inf" if rng.random() < .5 else "inf"])]
+        which = rng.choice(["lb", "ub"])       # validity precondition of the model: never lb = +inf, never ub = -inf
+        return [which, rng.choice(rids), rng.choice([-1000, -10, -1, 0, 1, 10, 1000, "-inf" if which == "lb" else "inf"])]
     if roll < 0.37 and rids:
         k = rng.randint(1, 2)
-        pool = mids + ["d_c"] if rng.random() < 0.8 else mids + ["zz"]
+        pool = list(dict.fromkeys(mids + (["d_c"] if rng.random() < 0.8 else ["zz"])))
         items = [[x, rng.choice(_COEFS)] for x in rng.sample(pool, min(k, len(pool)))]
         keytype = rng.choice(["obj", "obj", "id", "copy"])
         if rng.random() < 0.25 and items:                      # cancel an existing coefficient exactly
@@ -1568,6 +1606,9 @@ def _record(agg, spec, solver, hist, res):
         agg["nontrivial"] += 1
     for key, text, step in res["failures"][:1]:
         wit = hist[:step + 1]
+        if wit and wit[-1][0] == "exit":
+            wit = shrink(spec, solver, wit, key.split(":", 1)[0], key)
+            key = refine(key, wit)
         cur = agg["failures"].get(key)
         n = (cur[0] if cur else 0) + 1
         if cur is None or len(wit) < len(cur[3]) or (len(wit) == len(cur[3]) and json.dumps(wit) < json.dumps(cur[3])):
@@ -1576,8 +1617,28 @@ def _record(agg, spec, solver, hist, res):
             cur[0] = n
 
 
+def context_tag(wit):
+    """what a (shrunk) witness does before it leaves its context(s): the stable part of an exit failure's key.
+    One kind of operation -> its name; a solver switch together with anything else -> one bucket (undo closures bound to
+    the replaced solver object); every other mixture -> 'combination'."""
+    inner = sorted({API[st[0]] for st in wit if st[0] not in ("enter", "exit")})
+    if "Model.solver" in inner and len(inner) > 1:
+        tag = "Model.solver+edit"
+    elif len(inner) <= 1:
+        tag = "+".join(inner)
+    else:
+        tag = "combination"
+    nested = sum(1 for st in wit if st[0] == "enter") > 1
+    return ("nested:" if nested else "") + tag
+
+
+def refine(key, wit):
+    return key + "[" + context_tag(wit) + "]" if wit and wit[-1][0] == "exit" else key
+
+
 def _new_agg():
-    return {"evaluations": 0, "steps": 0, "raised": 0, "checks": 0, "nontrivial": 0, "failures": {}, "hashes": set(), "pruned": 0}
+    return {"evaluations": 0, "steps": 0, "raised": 0, "checks": 0, "nontrivial": 0, "failures": {}, "hashes": set(), "pruned": 0,
+            "cpu": 0.0}
 
 
 def _wrap(hist, wrap):
@@ -1595,7 +1656,7 @@ def _worker(task):
 
         def rec(prefix):
             hist = _wrap(prefix, wrap)
-            res = run_history(spec, solver, hist, mode)
+            res = safe_run(spec, solver, hist, mode)
             _record(agg, spec, solver, hist, res)
             if len(prefix) >= depth:
                 return
@@ -1618,7 +1679,7 @@ def _worker(task):
             if h in agg["hashes"]:
                 continue
             agg["hashes"].add(h)
-            res = run_history(spec, solver, hist, mode)
+            res = safe_run(spec, solver, hist, mode)
             _record(agg, spec, solver, hist, res)
     return agg
 
@@ -1627,17 +1688,18 @@ def plan(tier, seed):
     """-> (exhaustive blocks [(spec, solver, alphabet name, depth, wrap)], random (specs, chunks, n per chunk, max depth))"""
     b0, b1, b2 = hand_bases()
     if tier == "quick":
-        ex = [(b0, "glpk", "quick", 2, 0), (b0, "glpk_exact", "quick", 2, 0), (b1, "glpk", "quick", 2, 0),
-              (b0, "glpk", "core", 2, 1), (b1, "glpk_exact", "core", 2, 1), (b2, "glpk", "core", 2, 0)]
+        ex = [(b0, "glpk", "quick", 2, 0), (b1, "glpk_exact", "quick", 2, 0),
+              (b0, "glpk_exact", "core", 2, 0), (b1, "glpk", "core", 2, 0), (b2, "glpk", "core", 2, 0), (b2, "glpk_exact", "core", 2, 0),
+              (b0, "glpk", "core", 2, 1), (b1, "glpk_exact", "core", 2, 1)]
         rnd = ([b0, b1, b2] + gen_bases(seed, 5), 64, 110, 6)
     else:
         ex = [(b0, "glpk", "core", 3, 0), (b0, "glpk_exact", "core", 3, 0), (b1, "glpk", "core", 3, 0),
               (b1, "glpk_exact", "core", 3, 1), (b2, "glpk", "core", 3, 0)]
         for b in (b0, b1, b2):
-            for s in ("glpk", "glpk_exact"):
-                ex.append((b, s, "full", 2, 0))
+            for sv in ("glpk", "glpk_exact"):
+                ex.append((b, sv, "full", 2, 0))
         ex += [(b0, "glpk", "full", 2, 1), (b0, "glpk_exact", "quick", 2, 2), (b1, "glpk", "quick", 2, 1)]
-        rnd = ([b0, b1, b2] + gen_bases(seed, 24), 640, 260, 8)
+        rnd = ([b0, b1, b2] + gen_bases(seed, 24), 400, 250, 8)
     return ex, rnd
 
 
@@ -1678,7 +1740,7 @@ def explore(mode, tier, seed, processes=16):
                 ex_eval += agg["evaluations"]
             else:
                 rnd_eval += agg["evaluations"]
-            for k in ("evaluations", "steps", "raised", "checks", "nontrivial", "pruned"):
+            for k in ("evaluations", "steps", "raised", "checks", "nontrivial", "pruned", "cpu"):
                 total[k] += agg[k]
             total["hashes"] |= agg["hashes"]
             for key, (n, spec, solver, wit, text) in agg["failures"].items():
@@ -1692,8 +1754,10 @@ def explore(mode, tier, seed, processes=16):
     failures = []
     for key in sorted(total["failures"]):
         n, spec, solver, wit, text = total["failures"][key]
-        wit = shrink(spec, solver, wit, mode, key)
+        base_key = key.split("[", 1)[0]
+        wit = shrink(spec, solver, wit, mode, base_key)
         f = first_failure(spec, solver, wit, mode)
+        key = refine(base_key, wit)
         failures.append({"key": key, "failure": f"{f[1] if f else text}  [base {spec['id']}, {solver}; {n} histories of this run hit this key]",
                          "replay": {"mode": mode, "base": spec, "solver": solver, "history": wit}})
     b0 = hand_bases()[0]
@@ -1715,7 +1779,7 @@ def explore(mode, tier, seed, processes=16):
                    "exhaustive_histories_executed": ex_eval, "extensions_not_executed_after_failure_or_inapplicable_prefix": total["pruned"],
                    "random_histories_executed": rnd_eval, "random_max_depth": maxd, "random_bases": len(rspecs),
                    "steps_executed": total["steps"], "steps_that_raised": total["raised"], "oracle_evaluations": total["checks"],
-                   "wall_seconds": round(time.time() - t0, 1)},
+                   "wall_seconds": round(time.time() - t0, 1), "worker_cpu_seconds": round(total["cpu"], 1)},
         "exhaustive": False,
         "samples": samples,
         "failures": failures,
@@ -1724,10 +1788,13 @@ def explore(mode, tier, seed, processes=16):
 
 def _worker_idx(it):
     idx, task = it
-    return idx, _worker(task)
+    c0 = time.process_time()
+    agg = _worker(task)
+    agg["cpu"] = time.process_time() - c0
+    return idx, agg
 
 
 def replay(payload):
     quiet()
     f = first_failure(payload["base"], payload["solver"], payload["history"], payload["mode"])
-    return None if f is None else f"{f[0]}: {f[1]}"
+    return None if f is None else f"{refine(f[0], payload['history'][:f[2] + 1])}: {f[1]}"
